@@ -101,6 +101,16 @@ func (in *Interp) lookupIntrinsic(fn *ssa.Function) intrinsic {
 	if h := templateIntrinsic(fn); h != nil {
 		return h
 	}
+	if fn.Pkg != nil && fn.Name() != "init" {
+		pp := fn.Pkg.Pkg.Path()
+		if pp == "reflect" || pp == "internal/reflectlite" || pp == "unsafe" || strings.HasPrefix(pp, "github.com/") || pp == "os" || pp == "runtime" || pp == "syscall" || pp == "time" {
+			name := fn.String()
+			return func(in *Interp, fn *ssa.Function, args []Value) Value {
+				in.unsupported("library function outside the model: " + name)
+				return nil
+			}
+		}
+	}
 	if fn.Name() == "init" && fn.Pkg != nil && !in.ld.isModulePkg(fn.Pkg.Pkg) && fn.Signature.Recv() == nil {
 		return func(in *Interp, fn *ssa.Function, args []Value) Value { return nil }
 	}
@@ -445,11 +455,7 @@ func (in *Interp) fmtOperandM(v Value, verb byte, sharp bool, methods bool) ([]*
 						}
 						s := in.callFn(m, []Value{iv.v}, nil).(StrV)
 						if verb == 'q' {
-							cs, ok := concreteString(s)
-							if !ok {
-								return nil, false
-							}
-							return in.mkStr(strconv.Quote(cs)).b, true
+							return in.quoteSym(s)
 						}
 						return s.b, true
 					}
@@ -473,12 +479,17 @@ func (in *Interp) fmtOperandM(v Value, verb byte, sharp bool, methods bool) ([]*
 				}
 				return s.b, true
 			case 'q':
-				cs, ok := concreteString(s)
-				if !ok {
-					return nil, false
-				}
-				return in.mkStr(strconv.Quote(cs)).b, true
+				return in.quoteSym(s)
 			}
+		case u.Info()&types.IsFloat != 0:
+			if f, ok := iv.v.(*OpaqueV); ok && f.kind == "float" && (verb == 'v' || verb == 'g') && f.data != nil {
+				bits := 64
+				if u.Kind() == types.Float32 {
+					bits = 32
+				}
+				return in.mkStr(fmtFloatV(f.data.(float64), bits)).b, true
+			}
+			return nil, false
 		case u.Info()&types.IsBoolean != 0:
 			if verb == 'v' || verb == 't' {
 				if in.branch(iv.v.(*Term)) {
@@ -503,6 +514,14 @@ func (in *Interp) fmtOperandM(v Value, verb byte, sharp bool, methods bool) ([]*
 				return in.runeToString(iv.v.(*Term), u).(StrV).b, true
 			}
 		}
+	case *types.Map:
+		if verb == 'v' && !sharp {
+			m := iv.v.(*MapV)
+			if m == nil || len(m.keys) == 0 {
+				return in.mkStr("map[]").b, true
+			}
+			return nil, false
+		}
 	case *types.Pointer:
 		if verb == 'v' && !sharp {
 			p := iv.v.(PtrV)
@@ -519,6 +538,9 @@ func (in *Interp) fmtOperandM(v Value, verb byte, sharp bool, methods bool) ([]*
 		}
 	case *types.Array, *types.Slice:
 		if verb == 'v' && !sharp {
+			if sv, isSlice := iv.v.(SliceV); isSlice && sv.len == 0 {
+				return in.mkStr("[]").b, true
+			}
 			var elems []Value
 			var et types.Type
 			if at, ok := u.(*types.Array); ok {
@@ -781,6 +803,7 @@ func realStringWidth(s string) int {
 // symbolic byte whose domain is ASCII contributes ite(printable,1,0); otherwise the whole string is
 // an uninterpreted function of its bytes (evaluated with the real function on models).
 func iStringWidth(in *Interp, fn *ssa.Function, a []Value) Value {
+	in.logRunewidthGlobal("rd")
 	s := a[0].(StrV)
 	if cs, ok := concreteString(s); ok {
 		return in.intTerm(realStringWidth(cs))
